@@ -533,54 +533,59 @@ class Session:
         self.kind = observer
         root_abs = u.abs(u.root_name)
         self.cwd0 = os.getcwd()
-        if spelling == "rel":
-            os.chdir(u.base)
-            root = u.root_name
-        elif spelling == "slash":
-            root = root_abs + "/"
-        elif spelling == "dot":
-            os.chdir(u.base)
-            root = "./" + u.root_name
-        elif spelling == "dotdot":
-            os.chdir(u.base)
-            os.makedirs(os.path.join(u.base, "xdir"), exist_ok=True)
-            root = "xdir/../" + u.root_name
-        else:
-            root = root_abs
-        self.schedule_arg = None
-        if spelling == "path":
-            import pathlib
+        try:
+            if spelling == "rel":
+                os.chdir(u.base)
+                root = u.root_name
+            elif spelling == "slash":
+                root = root_abs + "/"
+            elif spelling == "dot":
+                os.chdir(u.base)
+                root = "./" + u.root_name
+            elif spelling == "dotdot":
+                os.chdir(u.base)
+                os.makedirs(os.path.join(u.base, "xdir"), exist_ok=True)
+                root = "xdir/../" + u.root_name
+            else:
+                root = root_abs
+            self.schedule_arg = None
+            if spelling == "path":
+                import pathlib
 
-            self.schedule_arg = pathlib.Path(root_abs)
-        elif spelling == "relpath":
-            import pathlib
+                self.schedule_arg = pathlib.Path(root_abs)
+            elif spelling == "relpath":
+                import pathlib
 
-            os.chdir(u.base)
-            root = u.root_name
-            self.schedule_arg = pathlib.Path(root)
-        self.root_spelled = os.fsencode(root) if as_bytes else root
-        self.as_bytes = as_bytes
-        sent = os.path.join(self.root_spelled, os.fsencode(SENT) if as_bytes else SENT)
-        self.sent_path = sent
-        self.col = Collector({sent})
-        if observer == "inotify":
-            from watchdog.observers.inotify import InotifyObserver
-            from watchdog.observers.inotify_buffer import InotifyBuffer
+                os.chdir(u.base)
+                root = u.root_name
+                self.schedule_arg = pathlib.Path(root)
+            self.root_spelled = os.fsencode(root) if as_bytes else root
+            self.as_bytes = as_bytes
+            sent = os.path.join(self.root_spelled, os.fsencode(SENT) if as_bytes else SENT)
+            self.sent_path = sent
+            self.col = Collector({sent})
+            if observer == "inotify":
+                from watchdog.observers.inotify import InotifyObserver
+                from watchdog.observers.inotify_buffer import InotifyBuffer
 
-            InotifyBuffer.delay = delay
-            self.obs = InotifyObserver(generate_full_events=full)
-        else:
-            from watchdog.observers.polling import PollingObserver
+                InotifyBuffer.delay = delay
+                self.obs = InotifyObserver(generate_full_events=full)
+            else:
+                from watchdog.observers.polling import PollingObserver
 
-            self.obs = PollingObserver(timeout=poll_interval)
-        self.col.polling = observer != "inotify"
-        self.exc_mark = monitors.exc_mark()
-        self.watch = self.obs.schedule(self.col, self.schedule_arg if self.schedule_arg is not None else self.root_spelled,
-                                       recursive=recursive, event_filter=event_filter, **({"follow_symlink": True} if follow_symlink else {}))
-        self.obs.start()
-        self.n_sent = 0
-        self.initial = u.walk_root()
-        self.consumed = 0
+                self.obs = PollingObserver(timeout=poll_interval)
+            self.col.polling = observer != "inotify"
+            self.exc_mark = monitors.exc_mark()
+            self.watch = self.obs.schedule(self.col, self.schedule_arg if self.schedule_arg is not None else self.root_spelled,
+                                           recursive=recursive, event_filter=event_filter, **({"follow_symlink": True} if follow_symlink else {}))
+            self.obs.start()
+            self.n_sent = 0
+            self.initial = u.walk_root()
+            self.consumed = 0
+        except BaseException:
+            # e.g. no inotify instance left: the caller retries or skips the case - never leave the process in a directory that is about to go
+            os.chdir(self.cwd0)
+            raise
 
     def rel_of(self, path):
         """event path -> path relative to the root ('' for the root itself); None if outside / malformed"""
